@@ -59,11 +59,46 @@ func readyPartsIndependent(c *Ctx, r *Report, rule string) {
 			r.Check(bad == "", rule, fnName(f), "committed-entries-always-applied", c.InstrPos(i), "the committed entries of a Ready are applied whether or not the same Ready carries a snapshot (snapshot test at "+bad+"): etcd/raft hands a follower that is being caught up the snapshot and the entries after it in one Ready — skipped, they are saved and acknowledged but never applied")
 		})
 		// stores to the leader field
-		for _, fldName := range []string{"raftLeaderId"} {
-			fld := c.Field("storage/raft", "RaftGroup", fldName)
-			if fld == nil {
-				continue
+		// the leader field, by role: the field that is stored a value read from SoftState.Lead
+		var leaderFields []*types.Var
+		eachInstr(f, func(i ssa.Instruction) {
+			st, ok := i.(*ssa.Store)
+			if !ok {
+				return
 			}
+			fld := fieldOfAddr(st.Addr)
+			if fld == nil {
+				return
+			}
+			fromLead := false
+			var walk func(v ssa.Value, d int)
+			walk = func(v ssa.Value, d int) {
+				if d > 5 || v == nil {
+					return
+				}
+				if fa, isF := v.(*ssa.FieldAddr); isF {
+					if sf := structField(fa.X.Type(), fa.Field); sf != nil && sf.Name() == "Lead" {
+						fromLead = true
+					}
+					return
+				}
+				switch y := v.(type) {
+				case *ssa.UnOp:
+					walk(y.X, d+1)
+				case *ssa.Call:
+					for _, a := range y.Call.Args {
+						walk(a, d+1)
+					}
+				case *ssa.Convert:
+					walk(y.X, d+1)
+				}
+			}
+			walk(st.Val, 0)
+			if fromLead {
+				leaderFields = append(leaderFields, fld)
+			}
+		})
+		for _, fld := range leaderFields {
 			for k, st := range fieldStoresIn(f, fld) {
 				n++
 				bad := ""
@@ -631,18 +666,38 @@ func validatorMeasuresBytes(c *Ctx, r *Report, rule string) {
 		return
 	}
 	n, bad := 0, ""
+	var measure func(f *ssa.Function, l ssa.Value, depth int)
+	measure = func(f *ssa.Function, l ssa.Value, depth int) {
+		y, isC := l.(*ssa.Call)
+		if !isC {
+			return
+		}
+		if callID(&y.Call).is("builtin", "", "len") {
+			n++
+			return
+		}
+		// a predicate helper of the module: what its result is computed from
+		if g := y.Call.StaticCallee(); g != nil && modLocal(g) && depth < 3 {
+			for _, rt := range returnsOf(g) {
+				for _, res := range rt.Results {
+					for _, l2 := range condLeaves(res, 0) {
+						measure(g, l2, depth+1)
+					}
+				}
+			}
+			for _, ifi := range allIfs(g) {
+				for _, l2 := range condLeaves(ifi.Cond, 0) {
+					measure(g, l2, depth+1)
+				}
+			}
+			return
+		}
+		n++
+		bad = callID(&y.Call).String() + " at " + c.InstrPos(y)
+	}
 	for _, ifi := range allIfs(v) {
 		for _, l := range condLeaves(ifi.Cond, 0) {
-			switch y := l.(type) {
-			case *ssa.Const:
-			case *ssa.Call:
-				n++
-				if !callID(&y.Call).is("builtin", "", "len") {
-					bad = callID(&y.Call).String() + " at " + c.InstrPos(y)
-				}
-			case *ssa.Extract, *ssa.Next, *ssa.Phi, *ssa.Parameter:
-			default:
-			}
+			measure(v, l, 0)
 		}
 	}
 	r.Check(n >= 3 && bad == "", rule, fnName(v), "bounds-byte-lengths", c.Pos(v.Pos()), fmt.Sprintf("the validator compares builtin len() of the map, keys and values (%d length tests; other measure: %s): the writer narrows byte lengths, so a validator counting anything else (runes) accepts metadata that Save then refuses — one such item makes the whole partition impossible to snapshot", n, bad))
@@ -1166,4 +1221,126 @@ func distanceIsReentrant(c *Ctx, r *Report, rule string) {
 		})
 	}
 	r.Check(bad == "", rule, "index/space", "distance-is-reentrant", "-", fmt.Sprintf("%d functions reachable from the Distance implementations write no package-level state (%s): a shared result slot is overwritten between one goroutine's kernel call and its load — a search returns a score that is another pair's distance, an insert links by it (the write happens in assembly, so the race detector does not see it)", len(reach), bad))
+}
+
+// ---- C12: an enum of the request selects an implementation ------------------------------------------------------
+
+// enumSelectsImplementation: where an interface value is chosen by a switch on an enum field of a replicated message and
+// stays nil for values outside the cases, the creation proposer must reject such values before anything is proposed —
+// otherwise one request with an out-of-range enum commits an entry whose application leaves a nil implementation behind,
+// and the first operation that invokes it panics on every replica and on every replay.
+func enumSelectsImplementation(c *Ctx, r *Report, rule string) {
+	n := 0
+	for _, f := range prodFuncs(c, "storage", "index", "index/space") {
+		eachInstr(f, func(i ssa.Instruction) {
+			phi, ok := i.(*ssa.Phi)
+			if !ok {
+				return
+			}
+			if _, isI := phi.Type().Underlying().(*types.Interface); !isI || isErrorType(phi.Type()) {
+				return
+			}
+			hasNil, hasImpl := false, false
+			for _, e := range phi.Edges {
+				if isNilConst(e) {
+					hasNil = true
+				} else if _, isMI := e.(*ssa.MakeInterface); isMI {
+					hasImpl = true
+				} else if _, isCall := e.(*ssa.Call); isCall {
+					hasImpl = true
+				}
+			}
+			if !hasNil || !hasImpl {
+				return
+			}
+			// the selecting enum: a getter call compared in the Ifs that lead to the φ's predecessors
+			getter := ""
+			for _, ifi := range allIfs(f) {
+				for _, l := range condLeaves(ifi.Cond, 0) {
+					if cl, isC := l.(*ssa.Call); isC {
+						if _, name, okG := isPbGetter(cl); okG {
+							getter = name
+						}
+					}
+				}
+			}
+			if getter == "" {
+				return
+			}
+			// does the φ reach a use (argument / invoke)?
+			used := false
+			for _, u := range *phi.Referrers() {
+				if cc := asCall(u); cc != nil {
+					used = true
+				}
+			}
+			if !used {
+				return
+			}
+			n++
+			ok2, where := enumValidatedAtCreation(c, getter)
+			r.Check(ok2, rule, fnName(f), "enum-"+getter+"-selects-implementation", c.InstrPos(phi), "the implementation chosen by "+getter+"() stays nil for values outside the switch; "+where)
+		})
+	}
+	if n == 0 {
+		r.OKTrivial(rule, "storage", "enum-selects-implementation", "-", "no interface value is left nil by a switch on a message enum")
+	}
+}
+
+// enumValidatedAtCreation: some proposer that marshals a client-supplied message tests the getter (comparison, or
+// membership in the generated name table) and returns an error on one side of the test, before the proposal.
+func enumValidatedAtCreation(c *Ctx, getter string) (bool, string) {
+	for _, sc := range validationScopes(c) {
+		f := sc.fn
+		for _, ifi := range allIfs(f) {
+			uses := false
+			var walk func(v ssa.Value, d int)
+			walk = func(v ssa.Value, d int) {
+				if d > 6 || v == nil {
+					return
+				}
+				switch y := v.(type) {
+				case *ssa.Call:
+					if _, name, okG := isPbGetter(y); okG && name == getter && len(y.Call.Args) == 1 && y.Call.Args[0] == sc.ds {
+						uses = true
+					}
+					for _, a := range y.Call.Args {
+						walk(a, d+1)
+					}
+				case *ssa.BinOp:
+					walk(y.X, d+1)
+					walk(y.Y, d+1)
+				case *ssa.UnOp:
+					walk(y.X, d+1)
+				case *ssa.Extract:
+					walk(y.Tuple, d+1)
+				case *ssa.Lookup:
+					walk(y.Index, d+1)
+				case *ssa.Convert:
+					walk(y.X, d+1)
+				case *ssa.ChangeType:
+					walk(y.X, d+1)
+				case *ssa.Phi:
+					for _, e := range y.Edges {
+						walk(e, d+1)
+					}
+					for _, p := range y.Block().Preds {
+						if pi := condOf(p); pi != nil {
+							walk(pi.Cond, d+1)
+						}
+					}
+				}
+			}
+			walk(ifi.Cond, 0)
+			if !uses {
+				continue
+			}
+			for _, pol := range []bool{true, false} {
+				if sc.rejected(ifi, pol) {
+					return true, "the creation path (" + fnName(f) + ") rejects values it does not know before proposing"
+				}
+			}
+		}
+	}
+	return false, "no proposer tests " + getter + "() before the proposal: a request with an out-of-range value is committed, every replica builds the object with a nil implementation and panics on the first operation that uses it — again on every replay"
 }
